@@ -28,7 +28,8 @@ type Profile struct {
 
 var famSib = []string{"lib/a", "lib/b", "lib.go", "lib-old", "lib0", "a", "test/x", "test/y", "test.c", "test-data", "test0"}
 var famNest = []string{"d/e/x", "d/e.x", "d/f", "g", "d/e/y/z", "d-o", "d.c", "d0", "ad/x", "da"}
-var famOdd = []string{"a b/c d", "p+q", "x(1)", "é/ü", "a.b/c", "my file.txt", "d x", "d x/y", "_u/v_", "日本/語.txt", "a[1]", "q*", "w?"}
+var famOdd = []string{"a b/c d", "p+q", "x(1)", "é/ü", "a.b/c", "my file.txt", "d x", "d x/y", "_u/v_", "日本/語.txt", "a[1]", "q*", "w?",
+	"100%/50%d", "%s", "a%20b", "b\\c", "c|d", "{e}", "^f$", "g'h", "i\"j", "k#l", "m;n", "o=p", "r&s", "t~u", "v@w", "x!y", "`z`", "a,b", "c:d", "<e>/f"}
 var famExt = []string{"src/a", "src/b", "src.c", "src-old", "src0", "src_x", "src2/c", "srcs", "src/sub/d", "src/sub.e"}
 var famIgn = []string{"f", "build/o", "sub/build/o", "rebuild/o", "a.exe", "a.exe.txt", "x.goit/f", "sub/.goit/f", ".goitx", "b.exe/z", "sub/c.exe"}
 var defaultBranches = []string{"main", "a", "ab", "b", "a-b", "a.b", "Z", "dev", "x_1", ".wip", "HEAD", "release"}
@@ -38,7 +39,7 @@ var defaultBranches = []string{"main", "a", "ab", "b", "a-b", "a.b", "Z", "dev",
 func sampledFamily(rng *rand.Rand) []string {
 	d := []string{"lib", "d", "src", "test", "pkg"}[rng.Intn(5)]
 	all := []string{d + "/a", d + "/b", d + "/sub/c", d + ".c", d + "-old", d + "0", d + "_x", d + "s/y", d + "2.go", "pkg2/" + d + "/a", "pkg2/" + d + "/b", "top.txt",
-		".goitignore", ".goitx", ".hidden/f", "a b/c d", "é/ü", "x(1)", "z"}
+		".goitignore", ".goitx", ".hidden/f", "a b/c d", "é/ü", "x(1)", "z", d + "%d/x", "100% " + d, d + "#1;2", d + "\\" + d}
 	rng.Shuffle(len(all), func(i, j int) { all[i], all[j] = all[j], all[i] })
 	n := 7 + rng.Intn(5)
 	out := append([]string{d + "/a", d + "/b"}, all[:n]...)
@@ -332,7 +333,7 @@ func (p *Profile) genEvent(rng *rand.Rand, tr *Trace) M {
 		key := []string{"user.name", "user.email", "core.x", "user.x", "user.name", "user.email"}[rng.Intn(6)]
 		v := vals[rng.Intn(len(vals))]
 		if key == "user.email" {
-			v = []string{"a@b.example.com", "x.y+z@mail.example.org", "q_1@ex-ample.co"}[rng.Intn(3)]
+			v = genEmail(rng)
 		}
 		return M{"ev": "config", "global": rng.Intn(5) < 2, "key": EscS(key), "value": EscS(v)}
 	case "updateref":
@@ -350,7 +351,20 @@ func (p *Profile) genEvent(rng *rand.Rand, tr *Trace) M {
 		if len(lines) == 0 {
 			return M{"ev": "remove", "p": ".goitignore"}
 		}
-		return M{"ev": "write", "p": ".goitignore", "c": tr.AddContent([]byte(strings.Join(lines, "\n") + "\n"))}
+		// the same entries in the shapes a text file takes: LF or CRLF line ends, with or without a final line end, blank lines
+		eol := "\n"
+		if rng.Intn(4) == 0 {
+			eol = "\r\n"
+		}
+		txt := strings.Join(lines, eol)
+		switch rng.Intn(6) {
+		case 0: // no final line end
+		case 1:
+			txt = eol + txt + eol + eol
+		default:
+			txt += eol
+		}
+		return M{"ev": "write", "p": ".goitignore", "c": tr.AddContent([]byte(txt))}
 	case "writetree":
 		return M{"ev": "writetree"}
 	case "raw":
@@ -600,4 +614,27 @@ func modifiedTracked(T *Tables, st M) []string {
 	}
 	sort.Strings(out)
 	return out
+}
+
+// genEmail draws an address from the grammar Goit accepts in a commit's author line
+// (local part [a-zA-Z0-9_.+-]+, one or more labels [a-zA-Z0-9][a-zA-Z0-9-]*, top-level domain of two or more letters),
+// with the boundary shapes (one-character parts, digits first, trailing hyphen, upper case) over-represented.
+func genEmail(rng *rand.Rand) string {
+	if rng.Intn(3) == 0 {
+		return []string{"a@b.example.com", "x.y+z@mail.example.org", "q_1@ex-ample.co", "A@B.CD", "0@1.zz", "x-.-@a-.b-.io", "first.last@sub.sub2.sub3.example", "a+b+c@x.museum", "__@9x.Org", "a@b.c.d.e.fg"}[rng.Intn(10)]
+	}
+	pick := func(set string, n int) string {
+		b := make([]byte, n)
+		for i := range b {
+			b[i] = set[rng.Intn(len(set))]
+		}
+		return string(b)
+	}
+	const alnum = "abcdefghijklmnopqrstuvwxyzABCDEFGHIJKLMNOPQRSTUVWXYZ0123456789"
+	const alpha = "abcdefghijklmnopqrstuvwxyzABCDEFGHIJKLMNOPQRSTUVWXYZ"
+	s := pick(alnum+"_.+", 1) + pick(alnum+"_.+-", rng.Intn(8)) + "@" // (an argument that starts with '-' is an option to the command line)
+	for i, n := 0, 1+rng.Intn(3); i < n; i++ {
+		s += pick(alnum, 1) + pick(alnum+"-", rng.Intn(6)) + "."
+	}
+	return s + pick(alpha, 2+rng.Intn(4))
 }
